@@ -4,6 +4,8 @@ import os
 from . import common as c
 
 KF_NAMES = ["KF_C08_Overlap"]
+# behaviours replayed on a grid at the start of the Unix epoch (loggers without a real-time clock): timestamps beyond the reception time
+EPOCH_CFGS = [("epoch4", "Lc_emit_epoch4.cfg", ["--epoch0"]), ("epoch2ecu", "Lc_emit_epoch2ecu.cfg", ["--epoch0"])]
 
 
 def emit_and_check(ctx, name, module, cfg, timeout=3000):
@@ -42,10 +44,12 @@ def run_lc(ctx, prop, emit_cfgs, mc_cfgs, driver_args, clean_cfgs=(), what=""):
     for name, module, cfg in mc_cfgs:
         c.tlc_must_pass(ctx, name, module, cfg, timeout=7000)
     # (b)+(c)+(d) behaviours of the bounded design model, replayed on the real detector
-    for name, cfg in list(emit_cfgs) + list(clean_cfgs):
-        scn, n = emit_and_check(ctx, name, "CleanBoots.tla" if (name, cfg) in list(clean_cfgs) else "LcDetector.tla", cfg)
+    for ent in list(emit_cfgs) + list(clean_cfgs):
+        name, cfg = ent[0], ent[1]
+        extra = list(ent[2]) if len(ent) > 2 else []      # e.g. ["--epoch0"]: replay on a grid at the start of the Unix epoch
+        scn, n = emit_and_check(ctx, name, "CleanBoots.tla" if ent in list(clean_cfgs) else "LcDetector.tla", cfg)
         out = ctx.path("trace-%s.ndjson" % name)
-        st = drive(ctx, binp, ["--scenarios", scn, "--first-case", str(first_case), "--seed", str(ctx.seed)], out)
+        st = drive(ctx, binp, ["--scenarios", scn, "--first-case", str(first_case), "--seed", str(ctx.seed)] + extra, out)
         os.remove(scn)
         first_case = st["cases_traced"]
         for k in ("replayed", "fast_path", "slow_path", "drift", "panics"):
@@ -94,6 +98,8 @@ def run_lc(ctx, prop, emit_cfgs, mc_cfgs, driver_args, clean_cfgs=(), what=""):
     if emit_cfgs:
         need = ["confirmed", "release-after-confirm-send1", "enqueue", "forward-direct-send3", "final-publish", "final-flush",
                 "upd-new", "upd-absorb"]
+        if any(len(e) > 2 and "--epoch0" in e[2] for e in emit_cfgs):
+            need += ["new-lc-timestamp-beyond-reception-time", "upd-timestamp-beyond-reception-time"]
         miss = [t for t in need if not ctx.extra.get("model_paths_behaviours", {}).get(t)]
         if miss:
             raise c.ToolError("vacuity: no replayed behaviour takes the code paths %s" % miss)
